@@ -61,6 +61,7 @@ var (
 	instE = []*mz.E{{A: mz.A{Tag: 1}, Extra: 5}, {A: mz.A{Tag: 2}}, {A: mz.A{Tag: 3}}}
 	instM = []*mz.M{{Tag: 1}, {Tag: 2, Y: [2]int{4, 5}}, {Tag: 3}}
 	gInt  = []*mz.G[int]{{Tag: 1, X: 5}, {Tag: 2}, {Tag: 3, X: -1}}
+	wInt  = []mz.W[int]{{Tag: 1, X: 5}, {Tag: 2}, {Tag: 3, X: -1}}
 	gStr  = []*mz.G[string]{{Tag: 1, X: "x"}, {Tag: 2}, {Tag: 3, X: "yy"}}
 	gPA   = []*mz.G[*mz.A]{{Tag: 1, X: instA[0]}, {Tag: 2}, {Tag: 3}}
 	gPV   = []*mz.G[*mz.V]{{Tag: 1}, {Tag: 2, X: &instV[0]}, {Tag: 3}}
@@ -190,6 +191,10 @@ func (w *methodWorld) Do(st Step) string {
 				} else {
 					bl.Struct(&mz.G[int]{}).Method("M").Return(base + 7)
 				}
+			case "Wint":
+				// (stubs only, every instruction a fresh stub - like Gint.N)
+				bl.Struct(mz.W[int]{}).Method("M").Cancel()
+				bl.Struct(mz.W[int]{}).Method("M").Return(base + 7)
 			case "Gstr":
 				if apply {
 					bl.Struct(&mz.G[string]{}).Method("M").Apply(func(p *mz.G[string], a int) int {
@@ -256,6 +261,8 @@ func (w *methodWorld) call(t string, i int) int {
 		return gInt[i].M(7)
 	case "Gint.N":
 		return gInt[i].N(7)
+	case "Wint.M":
+		return wInt[i].M(7)
 	case "Gstr.M":
 		return gStr[i].M(7)
 	case "GpA.M":
@@ -267,7 +274,7 @@ func (w *methodWorld) call(t string, i int) int {
 }
 
 var origBase = map[string]int{"A.Call": 100, "A.Call2": 200, "A.call": 300, "A.callAll": 1200, "V.Call": 400, "V.Get": 500, "u.Call": 600, "l.Call": 1100, "E.Own": 700,
-	"E.Call": 100, "M.P": 900, "M.Q": 1000, "Gint.M": 800, "Gint.N": 850, "Gstr.M": 800, "GpA.M": 800, "GpV.M": 800}
+	"E.Call": 100, "M.P": 900, "M.Q": 1000, "Gint.M": 800, "Gint.N": 850, "Wint.M": 1300, "Gstr.M": 800, "GpA.M": 800, "GpV.M": 800}
 
 func (w *methodWorld) Observe(st Step) map[string]string {
 	out := map[string]string{}
